@@ -273,11 +273,26 @@ def monitor(world, sc):
     return ("quiescent" if v == "blocked" else "finished"), probs
 
 
-def classify(sc, probs):
-    """Known-finding class of a failing quiescent state, or None."""
-    hw = sc.get("adj", {}).get("outbuf_high_watermark", 16777216)
-    if probs and hw == 0 and all(p.startswith("producer ") or p.startswith("requests holds") for p in probs):
-        return "kf_c05_watermark0"
+def classify(sc, world, cls, probs):
+    """Known-finding class of a failing run (decidable on the scenario and the trace), or None."""
+    if not probs:
+        return None
+    adj = sc.get("adj", {})
+    hw = adj.get("outbuf_high_watermark", 16777216)
+    sb = adj.get("send_bytes", 1)
+    if any(k == "send_continue" and th != "io" for th, k, _ in world.sched.events):
+        return "kf_c05_worker_continue"          # F18: a worker executed send_continue
+    f = world.final
+    if cls == "overrun":
+        return "kf_c05_sendbytes_gt_watermark" if sb > hw else None
+    if cls != "quiescent":
+        return None
+    if all(p.startswith("producer ") for p in probs) and not f["connected"] and not f["in_map"]:
+        return "kf_c05_park_after_close"
+    if hw == 0 and any(p.startswith("producer ") for p in probs) and \
+            all(p.startswith("producer ") or p.startswith("requests holds") or p.startswith("client bytes unread")
+                for p in probs):
+        return "kf_c05_watermark0"                # F23
     return None
 
 
@@ -441,3 +456,429 @@ def model_tokens(world, sc):
     head = ["trace", str(adj.channel_request_lookahead), str(adj.send_bytes), str(adj.outbuf_high_watermark),
             "1" if world.use_poll else "0", str(world.n_workers), world.granularity]
     return head, ["%s;%s;%s;%s" % (t, lab, arg, snap) for _, t, lab, arg, snap in toks]
+
+
+# ----------------------------------------------------------------------------
+# shape audit: the lock scopes, shared-attribute accesses, flag tests and wake-up calls of
+# the methods that Model/ChanWake.v represents, as a token string per method
+
+AUDIT_ATTRS = frozenset({"will_close", "close_when_flushed", "connected", "total_outbufs_len", "requests",
+                         "request", "sent_continue", "outbufs", "current_outbuf_count",
+                         "outbuf_lock", "requests_lock", "lock", "queue_cv", "queue", "stop_count"})
+AUDIT_CALLS = frozenset({"pull_trigger", "add_task", "notify", "notify_all", "wait", "acquire", "release", "send", "recv",
+                         "handle_close", "handle_read", "handle_write", "handle_error", "send_continue", "received",
+                         "_flush_some", "_flush_some_if_lockable", "_flush_exception",
+                         "_flush_outbufs_below_high_watermark", "service", "close", "del_channel", "append", "pop",
+                         "popleft", "readable", "writable", "handle_read_event", "handle_write_event",
+                         "handle_expt_event", "select", "poll", "register", "get", "skip", "read", "write",
+                         "readwrite", "_physical_pull"})
+
+AUDITED = [
+    ("channel.py", "HTTPChannel", m) for m in (
+        "writable", "handle_write", "_flush_exception", "readable", "handle_read", "send_continue", "received",
+        "_flush_some_if_lockable", "_flush_some", "handle_close", "write_soon",
+        "_flush_outbufs_below_high_watermark", "service")
+] + [
+    ("task.py", "ThreadedTaskDispatcher", "handler_thread"), ("task.py", "ThreadedTaskDispatcher", "add_task"),
+    ("wasyncore.py", None, "read"), ("wasyncore.py", None, "write"), ("wasyncore.py", None, "readwrite"),
+    ("wasyncore.py", None, "poll"), ("wasyncore.py", None, "poll2"),
+    ("wasyncore.py", "dispatcher", "send"), ("wasyncore.py", "dispatcher", "recv"),
+    ("wasyncore.py", "dispatcher", "close"), ("wasyncore.py", "dispatcher", "handle_read_event"),
+    ("wasyncore.py", "dispatcher", "handle_write_event"),
+    ("trigger.py", "_triggerbase", "pull_trigger"), ("trigger.py", "_triggerbase", "handle_read"),
+]
+
+
+class _Shape(ast.NodeVisitor):
+    def __init__(self):
+        self.out = []
+
+    def emit(self, t):
+        self.out.append(t)
+
+    def block(self, stmts):
+        self.emit("{")
+        for s in stmts:
+            self.visit(s)
+        self.emit("}")
+
+    # expressions
+    def visit_Attribute(self, node):
+        self.visit(node.value)
+        if node.attr in AUDIT_ATTRS:
+            self.emit(("W:" if isinstance(node.ctx, ast.Store) else "R:") + node.attr)
+
+    def visit_Name(self, node):
+        if isinstance(node.ctx, ast.Load) and node.id not in ("self", "True", "False", "None"):
+            self.emit("v:" + node.id)
+
+    def visit_Call(self, node):
+        f = node.func
+        name = f.attr if isinstance(f, ast.Attribute) else (f.id if isinstance(f, ast.Name) else None)
+        self.visit(f)
+        for a in node.args:
+            self.visit(a)
+        for k in node.keywords:
+            self.visit(k.value)
+        if name in AUDIT_CALLS:
+            kws = ",".join("%s=%s" % (k.arg, ast.unparse(k.value)) for k in node.keywords)
+            self.emit("call:%s(%s)" % (name, kws))
+
+    def visit_AugAssign(self, node):
+        self.visit(node.value)
+        t = node.target
+        if isinstance(t, ast.Attribute):
+            self.visit(t.value)
+            if t.attr in AUDIT_ATTRS:
+                self.emit("R:" + t.attr)
+                self.emit("W:" + t.attr)
+
+    def visit_Assign(self, node):
+        self.visit(node.value)
+        for t in node.targets:
+            self.visit(t)
+
+    def visit_BoolOp(self, node):
+        self.emit("and(" if isinstance(node.op, ast.And) else "or(")
+        for v in node.values:
+            self.visit(v)
+            self.emit(",")
+        self.emit(")")
+
+    def visit_Compare(self, node):
+        self.generic_visit(node)
+        self.emit("cmp:" + ",".join(type(o).__name__ for o in node.ops) + ":" +
+                  ",".join(ast.unparse(c) for c in node.comparators if isinstance(c, ast.Constant)))
+
+    def visit_UnaryOp(self, node):
+        if isinstance(node.op, ast.Not):
+            self.emit("not")
+        self.visit(node.operand)
+
+    # statements
+    def visit_With(self, node):
+        for it in node.items:
+            self.visit(it.context_expr)
+        self.emit("with")
+        self.block(node.body)
+
+    def visit_If(self, node):
+        self.emit("if")
+        self.visit(node.test)
+        self.block(node.body)
+        if node.orelse:
+            self.emit("else")
+            self.block(node.orelse)
+
+    def visit_While(self, node):
+        self.emit("while")
+        self.visit(node.test)
+        self.block(node.body)
+        if node.orelse:
+            self.emit("else")
+            self.block(node.orelse)
+
+    def visit_For(self, node):
+        self.emit("for")
+        self.visit(node.iter)
+        self.block(node.body)
+
+    def visit_Try(self, node):
+        self.emit("try")
+        self.block(node.body)
+        for h in node.handlers:
+            self.emit("except:" + (ast.unparse(h.type) if h.type is not None else "*"))
+            self.block(h.body)
+        if node.orelse:
+            self.emit("else")
+            self.block(node.orelse)
+        if node.finalbody:
+            self.emit("finally")
+            self.block(node.finalbody)
+
+    def visit_Return(self, node):
+        if node.value is not None:
+            self.visit(node.value)
+        self.emit("return")
+
+    def visit_Raise(self, node):
+        self.emit("raise:" + (ast.unparse(node.exc) if node.exc is not None else ""))
+
+    def visit_Break(self, node):
+        self.emit("break")
+
+    def visit_Continue(self, node):
+        self.emit("continue")
+
+
+def shape_signatures(src_dir):
+    """-> dict 'file:Class.method' -> token string"""
+    out = {}
+    trees = {}
+    for fname, cls, meth in AUDITED:
+        if fname not in trees:
+            trees[fname] = ast.parse(open(os.path.join(src_dir, fname)).read())
+        tree = trees[fname]
+        body = tree.body
+        if cls is not None:
+            body = next((n.body for n in tree.body if isinstance(n, ast.ClassDef) and n.name == cls), [])
+        fn = next((n for n in body if isinstance(n, ast.FunctionDef) and n.name == meth), None)
+        key = "%s:%s.%s" % (fname, cls or "", meth)
+        if fn is None:
+            out[key] = "MISSING"
+            continue
+        v = _Shape()
+        v.block(fn.body)
+        out[key] = " ".join(v.out)
+    return out
+
+
+# The shape of the audited methods on the tree the model was written against (one token string per
+# method: lock scopes `with {..}`, R:/W: of the shared attributes, tests, calls).  Which step of
+# Model/ChanWake.v stands for which statement is stated in the header comment of the model.
+EXPECTED_SHAPE = {
+    'channel.py:HTTPChannel.writable': (
+        '{ or( R:total_outbufs_len cmp:Gt:0 , R:will_close , R:close_when_flushed , ) return }'
+    ),
+    'channel.py:HTTPChannel.handle_write': (
+        '{ if not R:requests { } else { if R:total_outbufs_len cmp:GtE: { } else { } } v:flush call:_flush_ex'
+        'ception() if and( R:close_when_flushed , not R:total_outbufs_len , ) { W:close_when_flushed W:will_c'
+        'lose } if R:will_close { call:handle_close() } }'
+    ),
+    'channel.py:HTTPChannel._flush_exception': (
+        '{ if v:flush { try { v:flush v:do_close return } except:OSError { if { } W:will_close return } excep'
+        't:Exception { W:will_close return } } return }'
+    ),
+    'channel.py:HTTPChannel.readable': (
+        '{ not or( R:will_close , R:close_when_flushed , v:len R:requests cmp:Gt: , R:total_outbufs_len , ) r'
+        'eturn }'
+    ),
+    'channel.py:HTTPChannel.handle_read': (
+        '{ try { call:recv() } except:OSError { if { } call:handle_close() return } if v:data { v:time v:data'
+        ' call:received() } else { W:connected } }'
+    ),
+    'channel.py:HTTPChannel.send_continue': (
+        '{ R:request v:len v:outbuf_payload R:outbuf_lock with { R:outbufs v:outbuf_payload call:append() v:n'
+        'um_bytes R:current_outbuf_count W:current_outbuf_count v:num_bytes R:total_outbufs_len W:total_outbu'
+        'fs_len W:sent_continue call:_flush_some() } }'
+    ),
+    'channel.py:HTTPChannel.received': (
+        '{ if not v:data { return } R:requests_lock with { if or( R:will_close , R:close_when_flushed , ) { r'
+        'eturn } while v:data { if R:request cmp:Is:None { W:request } R:request v:data call:received() if an'
+        'd( R:request , R:request , not R:requests , not R:sent_continue , ) { call:send_continue() } if R:re'
+        'quest { W:sent_continue if not R:request { R:requests R:request call:append() if v:len R:requests cm'
+        'p:Eq:1 { call:add_task() } } W:request } if v:n v:len v:data cmp:GtE: { break } v:data v:n } } retur'
+        'n }'
+    ),
+    'channel.py:HTTPChannel._flush_some_if_lockable': (
+        '{ if R:outbuf_lock call:acquire() { try { v:do_close call:_flush_some(do_close=do_close) if R:total_'
+        'outbufs_len cmp:Lt: { R:outbuf_lock call:notify() } } finally { R:outbuf_lock call:release() } } }'
+    ),
+    'channel.py:HTTPChannel._flush_some': (
+        '{ while { R:outbufs v:outbuf while v:outbuflen cmp:Gt:0 { v:outbuf call:get() v:chunk v:do_close cal'
+        'l:send(do_close=do_close) if v:num_sent { v:outbuf v:num_sent call:skip() v:num_sent v:num_sent v:nu'
+        'm_sent R:total_outbufs_len W:total_outbufs_len } else { break } } else { if v:len R:outbufs cmp:Gt:1'
+        ' { R:outbufs call:pop() try { v:toclose call:close() } except:Exception { } } else { } } if v:dobrea'
+        'k { break } } if v:sent { v:time return } return }'
+    ),
+    'channel.py:HTTPChannel.handle_close': (
+        '{ R:outbuf_lock with { for R:outbufs { try { v:outbuf call:close() } except:Exception { } } W:total_'
+        'outbufs_len W:connected R:outbuf_lock call:notify() } v:wasyncore call:close() }'
+    ),
+    'channel.py:HTTPChannel.write_soon': (
+        '{ if not R:connected { raise:ClientDisconnected } if v:data { R:outbuf_lock with { call:_flush_outbu'
+        'fs_below_high_watermark() if not R:connected { raise:ClientDisconnected } v:len v:data if v:isinstan'
+        'ce v:data v:ReadOnlyFileBasedBuffer { R:outbufs v:data call:append() v:OverflowableBuffer R:outbufs '
+        'v:nextbuf call:append() W:current_outbuf_count } else { if R:current_outbuf_count cmp:GtE: { v:Overf'
+        'lowableBuffer R:outbufs v:nextbuf call:append() W:current_outbuf_count } R:outbufs v:data call:appen'
+        'd() v:num_bytes R:current_outbuf_count W:current_outbuf_count } v:num_bytes R:total_outbufs_len W:to'
+        'tal_outbufs_len if R:total_outbufs_len cmp:GtE: { call:_flush_exception(do_close=False) if or( v:exc'
+        'eption , not v:flushed , R:total_outbufs_len cmp:GtE: , ) { call:pull_trigger() } } } v:num_bytes re'
+        'turn } return }'
+    ),
+    'channel.py:HTTPChannel._flush_outbufs_below_high_watermark': (
+        '{ if R:total_outbufs_len cmp:Gt: { R:outbuf_lock with { call:_flush_exception(do_close=False) if v:e'
+        'xception { call:pull_trigger() R:outbuf_lock call:wait() return } while and( R:connected , R:total_o'
+        'utbufs_len cmp:Gt: , ) { call:pull_trigger() R:outbuf_lock call:wait() } } } }'
+    ),
+    'channel.py:HTTPChannel.service': (
+        '{ R:requests if v:request { v:request } else { v:request } try { if R:connected { v:task call:servic'
+        'e() } else { v:task } } except:ClientDisconnected { v:task R:request v:task } except:Exception { v:t'
+        'ask R:request if not v:task { if { v:traceback } else { } v:request v:request v:InternalServerError '
+        'v:body v:err_request v:req_version v:err_request try { v:req_headers v:err_request } except:KeyError'
+        ' { } v:err_request try { v:task call:service() } except:ClientDisconnected { v:task } } else { v:tas'
+        'k } } if v:task { R:requests_lock with { W:close_when_flushed for R:requests { v:request call:close('
+        ') } W:requests } } else { if v:len R:requests cmp:Gt:1 { call:_flush_outbufs_below_high_watermark() '
+        '} if R:current_outbuf_count cmp:Gt:0 { W:current_outbuf_count } v:request call:close() R:requests_lo'
+        'ck with { R:requests call:pop() if and( R:connected , R:requests , ) { call:add_task() } else { if a'
+        'nd( R:connected , R:request cmp:IsNot:None , R:request , R:request , not R:sent_continue , ) { call:'
+        'send_continue() } } } } if R:connected { call:pull_trigger() } v:time }'
+    ),
+    'task.py:ThreadedTaskDispatcher.handler_thread': (
+        '{ while { R:lock with { while and( not R:queue , R:stop_count cmp:Eq:0 , ) { R:queue_cv call:wait() '
+        '} if R:stop_count cmp:Gt:0 { R:stop_count W:stop_count v:thread_no call:notify() break } R:queue cal'
+        'l:popleft() } try { v:task call:service() } except:BaseException { v:task } } }'
+    ),
+    'task.py:ThreadedTaskDispatcher.add_task': (
+        '{ R:lock with { R:queue v:task call:append() R:queue_cv call:notify() v:len R:queue v:len R:stop_cou'
+        'nt if v:queue_size v:idle_threads cmp:Gt: { v:queue_size v:idle_threads } } }'
+    ),
+    'wasyncore.py:.read': (
+        '{ try { v:obj call:handle_read_event() } except:_reraised_exceptions { raise: } except:* { v:obj cal'
+        'l:handle_error() } }'
+    ),
+    'wasyncore.py:.write': (
+        '{ try { v:obj call:handle_write_event() } except:_reraised_exceptions { raise: } except:* { v:obj ca'
+        'll:handle_error() } }'
+    ),
+    'wasyncore.py:.readwrite': (
+        '{ try { if v:flags v:select { v:obj call:handle_read_event() } if v:flags v:select { v:obj call:hand'
+        'le_write_event() } if v:flags v:select { v:obj call:handle_expt_event() } if v:flags v:select v:sele'
+        'ct v:select { v:obj call:handle_close() } } except:OSError { if v:e v:_DISCONNECTED cmp:NotIn: { v:o'
+        'bj call:handle_error() } else { v:obj call:handle_close() } } except:_reraised_exceptions { raise: }'
+        ' except:* { v:obj call:handle_error() } }'
+    ),
+    'wasyncore.py:.poll': (
+        '{ if v:map cmp:Is:None { v:socket_map } if v:map { for v:list v:map { v:obj call:readable() v:obj ca'
+        'll:writable() if v:is_r { v:r v:fd call:append() } if and( v:is_w , not v:obj , ) { v:w v:fd call:ap'
+        'pend() } if or( v:is_r , v:is_w , ) { v:e v:fd call:append() } } if v:r v:w v:e cmp:Eq,Eq,Eq: { v:ti'
+        'me v:timeout return } try { v:select v:r v:w v:e v:timeout call:select() } except:OSError { if v:err'
+        ' v:EINTR cmp:NotEq: { raise: } else { return } } for v:r { v:map v:fd call:get() if v:obj cmp:Is:Non'
+        'e { continue } v:read v:obj call:read() } for v:w { v:map v:fd call:get() if v:obj cmp:Is:None { con'
+        'tinue } v:write v:obj call:write() } for v:e { v:map v:fd call:get() if v:obj cmp:Is:None { continue'
+        ' } v:_exception v:obj } } }'
+    ),
+    'wasyncore.py:.poll2': (
+        '{ if v:map cmp:Is:None { v:socket_map } if v:timeout cmp:IsNot:None { v:int v:timeout } v:select cal'
+        'l:poll() if v:map { for v:list v:map { if v:obj call:readable() { v:select v:select } if and( v:obj '
+        'call:writable() , not v:obj , ) { v:select } if v:flags { v:pollster v:fd v:flags call:register() } '
+        '} try { v:pollster v:timeout call:poll() } except:OSError { if v:err v:EINTR cmp:NotEq: { raise: } }'
+        ' for v:r { v:map v:fd call:get() if v:obj cmp:Is:None { continue } v:readwrite v:obj v:flags call:re'
+        'adwrite() } } }'
+    ),
+    'wasyncore.py:dispatcher.send': (
+        '{ try { v:data call:send() v:result return } except:OSError { if v:why v:EWOULDBLOCK cmp:Eq: { retur'
+        'n } else { if v:why v:_DISCONNECTED cmp:In: { if v:do_close { call:handle_close() } return } else { '
+        'raise: } } } }'
+    ),
+    'wasyncore.py:dispatcher.recv': (
+        '{ try { v:buffer_size call:recv() if not v:data { call:handle_close() return } else { v:data return '
+        '} } except:OSError { if v:why v:_DISCONNECTED cmp:In: { call:handle_close() return } else { raise: }'
+        ' } }'
+    ),
+    'wasyncore.py:dispatcher.close': (
+        '{ W:connected call:del_channel() if cmp:IsNot:None { try { call:close() } except:OSError { if v:why '
+        'v:ENOTCONN v:EBADF cmp:NotIn: { raise: } } } }'
+    ),
+    'wasyncore.py:dispatcher.handle_read_event': (
+        '{ if { } else { if not R:connected { if { } call:handle_read() } else { call:handle_read() } } }'
+    ),
+    'wasyncore.py:dispatcher.handle_write_event': (
+        '{ if { return } if not R:connected { if { } } call:handle_write() }'
+    ),
+    'trigger.py:_triggerbase.pull_trigger': (
+        '{ if v:thunk { R:lock with { v:thunk call:append() } } call:_physical_pull() }'
+    ),
+    'trigger.py:_triggerbase.handle_read': (
+        '{ try { call:recv() } except:OSError { return } R:lock with { for { try { v:thunk } except:* { v:was'
+        'yncore v:t v:v v:tbinfo } } } }'
+    ),
+}
+
+
+# ----------------------------------------------------------------------------
+# generators
+
+SIZES = (1, 5, 40, 100, 200, 300, 600)
+
+
+def gen_scenario(rng, faults=True, expect=True, hw_choices=(1, 60, 120, 250, 16777216), sb_choices=(1, 1, 50, 150),
+                 sb_any=False):
+    """Structured scenario: 1-3 requests, response sizes around send_bytes / the size of one
+    send / the watermark, partial-send plans, both poll functions, both granularities."""
+    nreq = rng.choice([1, 1, 2, 2, 3])
+    reqs = []
+    for i in range(nreq):
+        reqs.append({"path": "/r%d" % i,
+                     "chunks": [rng.choice(SIZES) for _ in range(rng.choice([1, 1, 2, 3]))],
+                     "cl": rng.random() < 0.6, "close": rng.random() < 0.2,
+                     "v": rng.choice(["1.1", "1.1", "1.0"]),
+                     "expect": expect and rng.random() < 0.12, "iter": rng.random() < 0.5})
+    nparts = sum(2 if r["expect"] else 1 for r in reqs)
+    mode = rng.choice(["one", "per_part", "rand"])
+    if mode == "rand":
+        segs, cur = [], []
+        for i in range(nparts):
+            cur.append(i)
+            if rng.random() < 0.5:
+                segs.append(cur)
+                cur = []
+        if cur:
+            segs.append(cur)
+    else:
+        segs = mode
+    hw = rng.choice(hw_choices)
+    sb = rng.choice(list(sb_choices) if sb_any else ([x for x in sb_choices if x <= hw] or [1]))
+    pool = [None, None, 1, 20, 90, 0] + ([["err", errno.EPIPE], ["err", errno.EHOSTUNREACH]] if faults else [])
+    plan = [rng.choice(pool) for _ in range(rng.choice([0, 2, 5, 9]))]
+    return {"reqs": reqs, "segs": segs,
+            "adj": {"send_bytes": sb, "outbuf_high_watermark": hw,
+                    "channel_request_lookahead": rng.choice([0, 0, 1, 2])},
+            "sndbuf": rng.choice([30, 100, 65536]), "send_plan": plan, "workers": rng.choice([1, 2, 3]),
+            "gran": rng.choice(["locks", "attrs"]), "poll": rng.random() < 0.5,
+            "client_close": rng.random() < 0.3,
+            "recv_faults": ({str(rng.choice([0, 1, 2])): rng.choice([errno.ECONNRESET, errno.EIO])}
+                            if faults and rng.random() < 0.08 else {})}
+
+
+def gen_policy(rng):
+    import random as _r
+    k = rng.random()
+    if k < 0.45:
+        return "random", RandomPolicy(_r.Random(rng.random()), stay=rng.choice([0, 0.5, 0.8, 0.9]))
+    d = rng.choice([1, 2, 3])
+    return "pct%d" % d, PCTPolicy(_r.Random(rng.random()), d, rng.choice([150, 300, 600]))
+
+
+def tiny_scenarios():
+    """Scenarios small enough for bounded exhaustive exploration of their schedules."""
+    base = {"sndbuf": 65536, "workers": 1, "gran": "locks", "client_close": False, "recv_faults": {}}
+    out = []
+    for poll in (False, True):
+        out.append(dict(base, reqs=[{"path": "/a", "chunks": [5], "cl": True}], segs="one",
+                        adj={"send_bytes": 1, "outbuf_high_watermark": 16777216, "channel_request_lookahead": 0},
+                        send_plan=[], poll=poll))
+        out.append(dict(base, reqs=[{"path": "/a", "chunks": [200], "cl": True}], segs="one",
+                        adj={"send_bytes": 1, "outbuf_high_watermark": 120, "channel_request_lookahead": 0},
+                        send_plan=[None, 90, 0], poll=poll))
+        out.append(dict(base, reqs=[{"path": "/a", "chunks": [40], "cl": True, "close": True}], segs="one",
+                        adj={"send_bytes": 50, "outbuf_high_watermark": 16777216, "channel_request_lookahead": 0},
+                        send_plan=[20, 0], poll=poll))
+        out.append(dict(base, reqs=[{"path": "/a", "chunks": [5], "cl": True}, {"path": "/b", "chunks": [5], "cl": True}],
+                        segs="one", workers=2,
+                        adj={"send_bytes": 1, "outbuf_high_watermark": 16777216, "channel_request_lookahead": 1},
+                        send_plan=[], poll=poll))
+    return out
+
+
+def explore_tiny(sc, max_preemptions, limit, on_world):
+    """Bounded exhaustive exploration (iterative pre-emption bounding) of one tiny scenario;
+    on_world(world, cls, probs) is called for every schedule."""
+    def run_case(prefix):
+        w, cls, probs = run_one(sc, schedule=prefix, policy=None, max_steps=3000)
+        on_world(w, cls, probs)
+        return w.sched
+    return explore(run_case, max_preemptions, limit=limit)
+
+
+def conform_lines(world, sc):
+    head, toks = model_tokens(world, sc)
+    return " ".join(head + toks)
+
+
+def parse_trace_answer(ans):
+    """-> dict: ok, fields (for OK) / message (for MISMATCH), tainted"""
+    if ans.startswith("OK"):
+        f = dict(t.split("=", 1) for t in ans.split()[1:] if "=" in t)
+        return {"ok": True, "f": f, "tainted": f.get("taint") == "1"}
+    return {"ok": False, "msg": ans, "tainted": " taint=1 " in ans}
